@@ -23,4 +23,9 @@ fn get_i128(m: &HashMap<String, String>, k: &str) -> Option<i128> {
     m.get(k).and_then(|v| v.parse::<i128>().ok())
 }
 
+mod c01;
+mod c14;
+mod c15;
 mod c18;
+mod c19;
+mod premises;
